@@ -32,6 +32,7 @@ type VirtualMachine struct {
 	ip           int // instruction pointer
 	sp           int // stack pointer
 	fp           int // frame pointer
+	mainIP       int // where Run resumes the main code
 	halt         *int32
 	startCount   int64
 	activeFrame  *frame
@@ -184,6 +185,9 @@ func (vm *VirtualMachine) runCodeInternal(ctx context.Context, codeToRun *compil
 		if r := recover(); r != nil {
 			err = fmt.Errorf("panic: %v", r)
 		}
+		if !resetState {
+			vm.mainIP = vm.ip
+		}
 		vm.stop()
 	}()
 
@@ -221,7 +225,7 @@ func (vm *VirtualMachine) runCodeInternal(ctx context.Context, codeToRun *compil
 	// Use vm.ip for Run (preserving existing behavior), 0 for RunCode
 	startIP := 0
 	if !resetState {
-		startIP = vm.ip
+		startIP = vm.mainIP
 	}
 	vm.activateCode(0, startIP, codeObj)
 
@@ -777,6 +781,7 @@ func (vm *VirtualMachine) SetIP(value int) error {
 		return errors.New("cannot set ip while the vm is running")
 	}
 	vm.ip = value
+	vm.mainIP = value
 	return nil
 }
 
